@@ -110,8 +110,6 @@ class Langs:
                     raise AnalysisError('re.MULTILINE changes the meaning of the anchors: not supported')
                 else:
                     raise AnalysisError('regex flag %s not understood' % t)
-        if flags & re.I:
-            raise AnalysisError('re.IGNORECASE is not supported by the language analysis')
         return flags
 
     def tag(self, short):
